@@ -12,7 +12,7 @@ EXTRACT = ["FDS", "C02W"]
 BINS = ["c02w"]
 NEEDS_CICADA = True
 ALLOWED_AXIOMS = []
-PINNED = ["C02_full", "C02_refuted", "C02_once_and_shell_holds_nothing", "C02_wait", "C02_wait_order_independent"]
+PINNED = ["C02_full", "C02_wiring", "C02_eof", "C02_once_and_shell_holds_nothing", "C02_wait", "C02_wait_order_independent"]
 TRUSTED = R.TRUSTED
 ASSUMES = R.ASSUMES
 WEIGHTS = {"builtin": 0.12, "notfound": 0.08, "here": 0.12, "from": 0.05, "redir": 0.1, "maxredir": 1, "capture": 0.1,
@@ -99,6 +99,6 @@ def run(ctx, res):
                 "pipe ends per stage); L3: strace vs model for n=1..6 plain, here-string on each stage, redirections")
     c02w_l1.run_l1(ctx, res)
     bytes_and_orders(ctx, res)
-    R.run_sequences(ctx, res, "C02", [[R.PRELUDE()] + R.REPLAYS["herestring-nonfirst"]()], "replay")
+    R.run_sequences(ctx, res, "C02", [[R.PRELUDE()] + [R.S([R.E(0), R.E(1, True, frm="h")])]], "herestring")
     R.run_sequences(ctx, res, "C02", R.gen_sequences(ctx, 150 if ctx.thorough else 25, 3, WEIGHTS), "seq")
     R.run_sequences(ctx, res, "C02", R.l3_cases(ctx), "l3", strace=True)
